@@ -426,7 +426,14 @@ def check_both(out, case, model, worker=None):
            "docx": D.build_docx(case["parts"]).hex(), "kw": {OPTION_KW[k]: v for k, v in opts.items() if k in OPTION_KW}}
     try:
         r = worker.call(req, 30.0)
-        alone = [worker.call({"op": "read", "text": t}, 10.0)["messages"] if t else [] for t in texts]
+        alone = []
+        for t in texts:
+            resp = worker.call({"op": "read", "text": t}, 10.0) if t else {"messages": []}
+            if "messages" not in resp:
+                # reading the style map on its own raised (a fault in the reader itself): a failing input of C07, not a crash of this check
+                out.violation("reading this style map raised %s" % (resp.get("err") or resp), {"kind": "stylemap", "text": t[:20000]}, actual=resp.get("text"))
+                return False
+            alone.append(resp["messages"])
     except Hang:
         out.violation("a conversion with an explicit and an embedded style map did not finish within 30 s", payload)
         return False
@@ -544,7 +551,7 @@ def run(out, tier, seed, model_ok):
                 out.violation("conversion with this %s style map raised %s" % (mode, r["err"]), {"kind": "stylemap-api", "text": t[:20000], "mode": mode}, actual=r.get("text"))
     if not hangs:
         big_maps(out, tier, seed, model_ok)
-    if not hangs:
+    if not hangs and not out.violations:
         both_maps(out, tier, seed, model_ok)
     if not hangs:
         timing_ok(out, tier)
